@@ -128,7 +128,27 @@ def witness_F4():
     return bool(np.allclose(ka.random_offsets_ / (2 * np.pi), scipy.stats.cauchy.cdf(ka.random_weights_[0, :]), atol=1e-9))
 
 
-WITNESS = {'F3': witness_F3, 'F4': witness_F4, 'F11': witness_F11, 'F12': witness_F12, 'F14': witness_F14, 'F9': witness_F9, 'F8': witness_F8}
+def F16(regressor_name, A):
+    """Dmd / Dmdc with exact modes on data of a singular state matrix."""
+    return regressor_name.endswith('/exact') and bool(np.min(np.abs(np.linalg.eigvals(np.asarray(A, dtype=float)))) < 1e-9)
+
+
+def witness_F16():
+    """the kernel-computed witness of RefutedDmd.v replayed on the implementation: x+ = [[0,1],[0,1]] x"""
+    import pykoop
+    A = np.array([[0., 1.], [0., 1.]])
+    rows = []
+    for l, x0 in enumerate(([1., 2.], [3., -1.], [-2., 0.5])):
+        x = np.array(x0)
+        for _ in range(3):
+            rows.append([float(l)] + list(x)); x = A @ x
+    X = np.array(rows)
+    proj = pykoop.Dmd(mode_type='projected').fit(X, n_inputs=0, episode_feature=True).coef_.T
+    ex = pykoop.Dmd(mode_type='exact').fit(X, n_inputs=0, episode_feature=True).coef_.T
+    return bool(np.allclose(proj, A, atol=1e-9) and np.allclose(ex, [[.5, .5], [.5, .5]], atol=1e-9))
+
+
+WITNESS = {'F16': witness_F16, 'F3': witness_F3, 'F4': witness_F4, 'F11': witness_F11, 'F12': witness_F12, 'F14': witness_F14, 'F9': witness_F9, 'F8': witness_F8}
 
 
 def report_known(res, pid):
